@@ -176,14 +176,7 @@ def scale_family(res, tier):
 
 
 def extras(res, tier):
-    v1, c1 = from_array_family(res, tier)
-    v2, c2 = normalisation_family(res, tier)
-    v3, c3 = equality_family(res, tier)
-    v4, c4 = scale_family(res, tier)
-    c1.update(c2)
-    c1.update(c3)
-    c1.update(c4)
-    return v1 + v2 + v3 + v4, c1
+    return [from_array_family, normalisation_family, equality_family, scale_family]
 
 
 def main(tier, all_violations=False, t0=None):
